@@ -716,3 +716,112 @@ Fixpoint spec_from (st : ost) (i : N) (l : list obs) : bool :=
 (* [ops] are the inputs; the predicate only reads the observations (operation i carries message i) *)
 Definition spec_C19 (ops : list hop) (observed : list obs) : bool :=
   Nat.eqb (length ops) (length observed) && spec_from (mkOst [] [] []) 0 observed.
+
+(* the part of [obs_ok] that looks at one observation only *)
+Definition obs_static_ok (o : obs) : bool :=
+  o_timely o && snap_bounded (o_snap o).
+
+(* ================================================================== util/multiqueue (commonspace/sync receive queues)
+   One bounded mb queue and one handler loop per thread id; Add = TryAdd.  A thread's queue object is the
+   [stream] record again ([st_peer] = thread id; "MsgSend" = the handler call).  Harness-level operations only
+   (the handler of every message parks on a gate; [MqRelease tid m] lets the handler of message m return);
+   the message of the i-th operation is i. *)
+Record mqstate := mkMq {
+  mq_cap     : N;
+  mq_closed  : bool;
+  mq_threads : list (N * N);     (* thread id -> queue object id *)
+  mq_objs    : heap;
+  mq_next    : N
+}.
+
+Inductive mqop := MqAdd (tid : N) | MqRelease (tid m : N) | MqCloseThread (tid : N) | MqClose.
+
+Definition mq_init (cap : N) : mqstate := mkMq cap false [] [] 0.
+
+Fixpoint tdel (k : N) (l : list (N * N)) : list (N * N) :=
+  match l with [] => [] | (k', v) :: r => if k =? k' then tdel k r else (k', v) :: tdel k r end.
+
+Definition force_close (st : stream) : stream := close_queue (read_err st).
+
+Definition mq_upd (s : mqstate) (h : heap) : mqstate := mkMq (mq_cap s) (mq_closed s) (mq_threads s) h (mq_next s).
+
+(* Add: the thread is started on first use *)
+Definition mq_ensure (s : mqstate) (tid : N) : mqstate * N :=
+  match aget tid (mq_threads s) with
+  | Some oid => (s, oid)
+  | None =>
+      let oid := mq_next s + 1 in
+      (mkMq (mq_cap s) (mq_closed s) ((tid, oid) :: mq_threads s)
+            (hset oid (mkStream tid (mq_cap s) [] [] None false false false false false [] [] []) (mq_objs s)) oid, oid)
+  end.
+
+(* q.TryAdd(msg), followed by the hand-over to the thread loop if its handler is idle *)
+Definition mq_add_at (s1 : mqstate) (oid tid i : N) : mqstate * N * list (N * N) :=
+  match hget oid (mq_objs s1) with
+  | None => (s1, 4, [])
+  | Some st =>
+      let '(st1, r) := write_stream st i in
+      match r with
+      | WOk => let '(st2, o) := take st1 in
+               (mq_upd s1 (hset oid st2 (mq_objs s1)), 0, match o with Some m => [(tid, m)] | None => [] end)
+      | WOverflow => (s1, 3, [])
+      | WClosed => (s1, 4, [])
+      end
+  end.
+
+(* returns the new state, the error class (0 nil, 3 overflow, 5 multiqueue.ErrClosed, 6 ErrThreadNotExists)
+   and the handler entries (thread, message) *)
+Definition mq_step (s : mqstate) (i : N) (op : mqop) : mqstate * N * list (N * N) :=
+  match op with
+  | MqAdd tid =>
+      if mq_closed s then (s, 5, []) else
+      mq_add_at (fst (mq_ensure s tid)) (snd (mq_ensure s tid)) tid i
+  | MqRelease tid m =>
+      match find (fun kv => (st_peer (snd kv) =? tid) && match st_inflight (snd kv) with Some x => x =? m | None => false end)
+                 (mq_objs s) with
+      | None => (s, 0, [])
+      | Some (oid, st) =>
+          let '(st2, o) := take (send_ok st) in
+          (mq_upd s (hset oid st2 (mq_objs s)), 0, match o with Some x => [(tid, x)] | None => [] end)
+      end
+  | MqCloseThread tid =>
+      if mq_closed s then (s, 5, []) else
+      match aget tid (mq_threads s) with
+      | None => (s, 6, [])
+      | Some oid =>
+          match hget oid (mq_objs s) with
+          | None => (s, 4, [])
+          | Some st =>
+              (mkMq (mq_cap s) (mq_closed s) (tdel tid (mq_threads s))
+                    (hset oid (fst (take (force_close st))) (mq_objs s)) (mq_next s), 0, [])
+          end
+      end
+  | MqClose =>
+      if mq_closed s then (s, 5, []) else
+      (mkMq (mq_cap s) true (mq_threads s)
+            (map (fun kv => (fst kv, fst (take (force_close (snd kv))))) (mq_objs s)) (mq_next s), 0, [])
+  end.
+
+Record mqobs := mkMqObs { mo_err : N; mo_takes : list (N * N); mo_threads : list N }.
+
+Fixpoint mq_hist (s : mqstate) (i : N) (ops : list mqop) : list mqobs :=
+  match ops with
+  | [] => []
+  | op :: r =>
+      let '(s', e, tk) := mq_step s i op in
+      mkMqObs e tk (sortN (map fst (mq_threads s'))) :: mq_hist s' (N.succ i) r
+  end.
+
+(* per thread id the handler sees messages in the order they were issued, none from the future
+   (thread ids are not re-created after CloseThread in the generated histories) *)
+Fixpoint spec_mq_from (lastm : list (N * N)) (i : N) (l : list mqobs) : bool :=
+  match l with
+  | [] => true
+  | o :: r =>
+      forallb (fun tm => (snd tm <=? i) && match aget (fst tm) lastm with Some m0 => m0 <=? snd tm | None => true end)
+              (mo_takes o)
+      && negb (mo_err o =? 9)
+      && spec_mq_from (mo_takes o ++ lastm) (N.succ i) r
+  end.
+
+Definition spec_C19_mq (observed : list mqobs) : bool := spec_mq_from [] 0 observed.
